@@ -11,6 +11,21 @@ CHECKS = {
             "Generated-input search: every base-field operation, conversion and observable is compared with plain integer arithmetic mod p on operands drawn 1:1:1 from boundary residues, structured/edge internal images (incl. operands solved to hit lazy-reduction windows) and uniform values; operation histories over 4 registers check the representation invariant after every step; all published constants are checked exhaustively against their defining equations. Not a proof: absence of a counter-example in the explored sample.",
             "Trusts the harness' u128 reference arithmetic (self-checked against num-bigint at start-up) and the hard-coded factorisations of p-1 (re-verified by division and trial primality).",
             "DESIGN.md 3/C07"),
+    "C08": ("exploration", "vf-math",
+            "property-based testing (proptest): generated coefficient tuples vs polynomial arithmetic modulo the documented irreducible",
+            "Generated-input search over the five extension types: all arithmetic, squaring fast paths, mul_base, inversion (every non-zero element), conjugation (compared with x -> x^p by definition; automorphism laws; fixed field = base field; norm in base field), embedding homomorphism, slice/byte reinterpretation round trips, serialization and Display are compared with a schoolbook reference. Coefficients come from the C07 operand generator in every position, plus coefficients solved so that a chosen partial product has a boundary internal image.",
+            "Trusts the reference extension arithmetic (irreducibility of the documented polynomials re-verified at start-up through Frobenius) and assumes the documented irreducibles are the intended ones.",
+            "DESIGN.md 3/C08"),
+    "C09": ("exploration", "vf-math",
+            "property-based testing (proptest): generated polynomials/matrices, differential against direct Horner evaluation",
+            "Generated-input search: every FFT entry point (evaluate, evaluate with offset/blowup, interpolate, serial_fft, twiddles, degree inference, permute_index) and the column-batched segmented LDE builders (ColMatrix, RowMatrix::<N> for N in 1,2,4,8,16 with 1..255 columns, StarkDomain) are compared with direct evaluation at offset*w^i over integer residues: all points for domains <= 256, generated sample positions above; sizes 2^1..2^12 (quick) / 2^15 (thorough), all three fields and five extension types.",
+            "Serial build only (concurrent paths are C14). Domains above 256 points are compared at sampled positions (plus interpolate(evaluate(p)) == p on all coefficients). Uses the published root of unity, whose defining equations C07 checks.",
+            "DESIGN.md 3/C09"),
+    "C20": ("exploration", "vf-math",
+            "property-based testing (proptest): generated polynomials, point sets and vectors vs schoolbook reference identities",
+            "Generated-input search over base and extension fields of the three primes: add/sub/mul/scalar/eval/degree/remove_leading_zeros, long division (q*b+r=a, deg r<deg b), synthetic division by x^a-b (incl. b=1, a>=2, repeated) and by root lists, Lagrange interpolation (single and batched N=2,4,8,16), poly_from_roots, batch inversion with zeros at generated positions, power series, add_in_place, mul_acc at lengths on both sides of the 1024-element threshold. Documented panics are required to happen; every other panic is a violation.",
+            "Trusts the schoolbook reference (vf-ref). Power series of length 0 and empty dividend slices are not generated (undefined by the docs, no caller uses them).",
+            "DESIGN.md 3/C20"),
 }
 
 NOT_YET = {
